@@ -21,12 +21,12 @@ import (
 	"scratch/tr"
 )
 
-type entry struct{ C, S, R func() }
+type entry struct{ C, S, R, N func() }
 
 var entries = map[string]*entry{}
 
 // Add registers the variants of one package.
-func Add(c, s, r map[string]func()) {
+func Add(c, s, r, n map[string]func()) {
 	for name, f := range c {
 		e := &entry{C: f}
 		if s != nil {
@@ -34,6 +34,9 @@ func Add(c, s, r map[string]func()) {
 		}
 		if r != nil {
 			e.R = r[name]
+		}
+		if n != nil {
+			e.N = n[name]
 		}
 		entries[name] = e
 	}
@@ -48,6 +51,7 @@ type job struct {
 	Budget    int    `json:"budget"`
 	NoRef     bool   `json:"no_ref"`
 	MapOrder  bool   `json:"map_order"`
+	Native    bool   `json:"native"`
 }
 
 type diff struct {
@@ -210,9 +214,15 @@ func runJob(j *job) *summary {
 		s.Harness = append(s.Harness, "no such entry")
 		return s
 	}
-	base := e.R
-	if j.NoRef || base == nil {
-		base = e.C
+	refF, refKind := e.R, "CR"
+	if j.Native {
+		refF, refKind = e.N, "NC"
+		if refF == nil {
+			s.Harness = append(s.Harness, "native source variant not linked")
+			return s
+		}
+	} else if j.NoRef {
+		refF = nil
 	}
 	tape := []bool{}
 	for {
@@ -223,12 +233,9 @@ func runJob(j *job) *summary {
 		var consumed int
 		for hi, k := range hist {
 			var r, c, st runOut
-			if !j.NoRef && e.R != nil {
-				r = exec(e.R, tape, j, k)
-				if r.escaped != "" {
-					s.Harness = append(s.Harness, "reference entry panicked: "+r.escaped)
-				}
-				if hasPrefixEvent(r.ev, "STUB-") {
+			if refF != nil {
+				r = exec(refF, tape, j, k)
+				if hasPrefixEvent(r.ev, "STUB-") && !j.Native {
 					s.Harness = append(s.Harness, "untransformed yield in reference")
 				}
 			}
@@ -249,12 +256,12 @@ func runJob(j *job) *summary {
 			}
 			if hi == 0 {
 				consumed = r.consumed
-				if j.NoRef || e.R == nil {
+				if refF == nil {
 					consumed = c.consumed
 				}
 				y := 0
 				ref := r.ev
-				if j.NoRef || e.R == nil {
+				if refF == nil {
 					ref = c.ev
 				}
 				for _, x := range ref {
@@ -277,12 +284,15 @@ func runJob(j *job) *summary {
 			if j.MapOrder {
 				cmpA, cmpC, cmpS = sorted(cmpA), sorted(cmpC), sorted(cmpS)
 			}
-			if !j.NoRef && e.R != nil {
-				s.addDiff("CR-full", tape, k, cmpA, cmpC)
-				s.addDiff("CR-values", tape, k, values(cmpA), values(cmpC))
-				if c.escaped != "" && r.escaped == "" {
-					s.addDiff("CR-full", tape, k, []string{"<entry returned normally>"}, []string{"<entry panicked: " + c.escaped + ">"})
+			if refF != nil {
+				s.addDiff(refKind+"-full", tape, k, cmpA, cmpC)
+				s.addDiff(refKind+"-values", tape, k, values(cmpA), values(cmpC))
+				if c.escaped != r.escaped {
+					s.addDiff(refKind+"-full", tape, k, []string{"<entry: " + r.escaped + ">"}, []string{"<entry: " + c.escaped + ">"})
 				}
+			}
+			if e.S != nil && st.escaped != c.escaped {
+				s.addDiff("SC-full", tape, k, []string{"<entry: " + st.escaped + ">"}, []string{"<entry: " + c.escaped + ">"})
 			}
 			if e.S != nil {
 				s.addDiff("SC-full", tape, k, cmpS, cmpC)
@@ -311,7 +321,6 @@ func runJob(j *job) *summary {
 		}
 		tape = append(full[:i:i], true)
 	}
-	_ = base
 	return s
 }
 
